@@ -613,6 +613,23 @@ fn marker_fill(r: &mut Rng, out: &mut Vec<u8>, g: Geo, utf8: bool) {
     out.extend_from_slice(format!("\x1b[{};{}H", row, col).as_bytes());
 }
 
+/// modes a program sets up before it starts typing: insert mode, autowrap off, newline mode,
+/// reverse video - independently, so that combinations (IRM with DECAWM off) occur
+fn mode_prelude(r: &mut Rng, out: &mut Vec<u8>) {
+    if r.chance(1, 5) {
+        out.extend_from_slice(b"\x1b[4h");
+    }
+    if r.chance(1, 5) {
+        out.extend_from_slice(b"\x1b[?7l");
+    }
+    if r.chance(1, 10) {
+        out.extend_from_slice(b"\x1b[20h");
+    }
+    if r.chance(1, 12) {
+        out.extend_from_slice(b"\x1b[?5h");
+    }
+}
+
 fn editor(r: &mut Rng, out: &mut Vec<u8>, g: Geo, utf8: bool, focus: Focus, len: usize) {
     marker_fill(r, out, g, utf8);
     if r.chance(1, 2) {
@@ -627,9 +644,7 @@ fn editor(r: &mut Rng, out: &mut Vec<u8>, g: Geo, utf8: bool, focus: Focus, len:
         let col = r.range(1, g.cols as u64 + 1);
         out.extend_from_slice(format!("\x1b[{};{}H", row, col).as_bytes());
     }
-    if r.chance(1, 4) {
-        out.extend_from_slice(*r.pick(&[&b"\x1b[4h"[..], b"\x1b[?7l", b"\x1b[20h", b"\x1b[?5h"]));
-    }
+    mode_prelude(r, out);
     let start = out.len();
     let target = start + len;
     tokens_with_repeats(r, out, utf8, g, focus, false, target);
@@ -749,6 +764,7 @@ pub fn program(r: &mut Rng, p: &Profile, g: Geo, utf8: bool, len: usize) -> Sess
             tokens_with_repeats(r, &mut out, utf8, g, p.focus, risky, len);
         }
         Kind::Text => {
+            mode_prelude(r, &mut out);
             while out.len() < len {
                 if r.chance(1, 6) {
                     c0(r, &mut out, p.focus);
